@@ -61,6 +61,23 @@ Theorem C03_recovers : forall retries seq0 connected cs c1 c2 e st1,
 Proof. exact (fun retries seq0 connected cs c1 c2 e st1 => recovers_after_history gen_def retries seq0 connected cs c1 c2 e st1 gen_def_good). Qed.
 Print Assumptions C03_recovers.
 
+(* Delivered => executed exactly once, per attempt on a live connection: whatever the network does to
+   the connection or to the reply after the request reached the server — including a reset between
+   delivery and handling ([FResetDelivered]) — the method runs exactly once and a oneway call returns
+   None; a request that does not reach the server ([FDropReq], [FResetBefore]) is not executed. *)
+Theorem C03_delivered_executed_once : forall k tok st c f fs,
+  p_conn st = Some c -> c_broken c = false -> c_srvclosed c = false -> delivers f = true ->
+  let a := attempt gen_def k tok st (f :: fs) in
+  s_log (a_st a) = tok :: s_log st /\ (rk k = None -> a_res a = inr ONone).
+Proof. exact (delivered_executed_once gen_def). Qed.
+Print Assumptions C03_delivered_executed_once.
+
+Theorem C03_undelivered_not_executed : forall k tok st c f fs,
+  p_conn st = Some c -> c_broken c = false -> delivers f = false ->
+  s_log (a_st (attempt gen_def k tok st (f :: fs))) = s_log st.
+Proof. exact (undelivered_not_executed gen_def). Qed.
+Print Assumptions C03_undelivered_not_executed.
+
 (* The wrap-around 65535 -> 0 raises no false out-of-sync: on a connected, drained proxy at ANY
    sequence number a healthy call of any kind returns its own answer, executed once. *)
 Theorem C03_wraparound_no_false_alarm : forall k tok n st,
